@@ -5,6 +5,8 @@ import json, sys
 pid = sys.argv[1]
 wt = sys.argv[2] if len(sys.argv) > 2 else f"/tmp/seedwork/{pid}"
 out = sys.argv[3] if len(sys.argv) > 3 else f"/tmp/seed-out/{pid}"
+first = int(sys.argv[4]) if len(sys.argv) > 4 else 1      # numbering of the changes (round 2 uses 3 and 4)
+second = first + 1
 p = next(json.loads(l) for l in open('/verif/properties.jsonl') if json.loads(l)['id'] == pid)
 print(f"""You are helping to evaluate a verification tool for the Rust library rxRust (a Reactive Extensions library). Your job is to play the role of a developer who introduces a subtle regression.
 
@@ -16,13 +18,13 @@ Here is a semantic property of the library that users rely on:
   Statement: {p['statement']}
   It is meant to hold over: {p['quantifier']['text']}
 
-Produce TWO independent, different source changes to the library (call them 1 and 2; different operators / code sites / failure mechanisms), each of which:
+Produce TWO independent, different source changes to the library (call them {first} and {second}; different operators / code sites / failure mechanisms), each of which:
   (a) BREAKS this property (for some input, history or schedule the statement becomes false),
   (b) still COMPILES, and the library's existing test-suite (`cargo test --offline --lib`, plus doc tests if you can: `cargo test --offline --doc`) still PASSES with the change applied,
   (c) is REALISTIC: the kind of slip a maintainer could make in a refactoring or an optimisation (a moved line, a dropped take()/check, a wrong comparison, a lock released too early, state hoisted into the wrong place, ...), small (a few lines), not an obviously sabotaging change, no new dependencies, no cfg tricks, no change to tests,
   (d) needs SOMETHING SPECIFIC to manifest -- a particular interleaving of events of several inputs, an event after a terminal, a particular multi-step sequence of operations, an unusual parameter or input, a particular scheduler order or thread interleaving, or two cooperating sites that each look fine alone -- rather than something that ordinary use of the operator would expose at once.
 
-For each change i in {{1,2}} write into {out}/i/ :
+For each change i in {{{first},{second}}} write into {out}/i/ :
   - patch.diff : the change as produced by `git -C {wt} diff` (must apply with `git apply` to the pinned commit; only files under src/),
   - a demonstration: a self-contained Rust test file demo.rs that can be dropped into the crate as `tests/demo.rs` (integration test using `use rxrust::prelude::*;`; if it needs crate-private items put it somewhere else and say so) which FAILS with the change applied and PASSES on the unchanged code; keep it deterministic (no sleeps/real threads unless the point is a thread interleaving, in which case make the interleaving deterministic or highly reliable),
   - notes.md : which part of the statement is broken, what exactly is needed for it to manifest, and the exact commands you ran with their outcome (test-suite with the change: pass; demo with the change: fail; demo without the change: pass).
